@@ -246,7 +246,8 @@ func allHandler(c fiber.Ctx, st *appState) error {
 		case err == nil:
 			st.rangeCls = "ok" + strconv.Itoa(len(r.Ranges))
 			for _, rs := range r.Ranges {
-				// the documented contract of Range(size): every returned range lies inside [0,size)
+				// a handler serves entity[rs.Start : rs.End+1] of its size-byte entity: a range
+				// outside [0,size) makes exactly that slice expression panic
 				if rs.Start < 0 || rs.End > 999 || rs.Start > rs.End {
 					st.rangeCls = "OUTSIDE"
 				}
